@@ -251,6 +251,7 @@ static int replay(const char *key) {
 }
 
 static int worker(int argc, char **argv) {
+    vc_dirty_bytes = 2048;   /* leaf routines with small frames; millions of cases */
     if (vc_replay_key) return replay(vc_replay_key);
     if (argc < 2) return 1;
     if (!strcmp(argv[1], "codec")) run_codec(atoi(argv[2]), atoi(argv[3]), atoi(argv[4]));
